@@ -877,7 +877,8 @@ class TermEval(AbsInt):
         if n == "TriangularInv":
             return INV(args[0])
         if n in ("IterativeOperatorWInfo", ):
-            return ("iter", args[0], args[1] if len(args) > 1 else ("opaque", "alg"))
+            a0 = args[0] if args else kwargs.get("A", ("opaque", "IterativeOperatorWInfo()"))
+            return ("iter", a0, args[1] if len(args) > 1 else kwargs.get("alg", ("opaque", "alg")))
         if n == "LSTSQSolve":
             return ("pinv", args[0])
         return ("opaque", f"{n}()")
